@@ -110,7 +110,7 @@ IntStr(n) == ToString(n)
 RECURSIVE Ev(_, _, _), EvList(_, _, _, _), EvElems(_, _, _, _), EvPairs(_, _, _, _), EvArgs(_, _, _, _, _, _),
           EvKw(_, _, _, _, _), EvStmts(_, _, _, _, _, _), RunDefers(_, _, _, _), RunBody(_, _, _),
           Apply(_, _, _, _), CallProp(_, _, _, _, _), Truthy(_, _), EvParts(_, _, _, _, _), CallValue(_, _, _, _),
-          ListLoop(_, _, _, _, _, _, _, _), RedLoop(_, _, _, _, _, _, _, _), RangeElems(_, _, _)
+          ListLoop(_, _, _, _, _, _, _, _, _), RedLoop(_, _, _, _, _, _, _, _, _), RangeElems(_, _, _)
 
 (* truthiness = the value's B property is the object true (identity) *)
 Truthy(v, st) ==
@@ -315,6 +315,7 @@ RangeElems(i, stop, step) ==
 HasElems(v) == \/ v.t \in {"arr", "int", "view"}
                \/ v.t = "obj" /\ OwnProp(v, "_iter").found = FALSE /\ OwnProp(v, "next").found = FALSE
                \/ v.t = "range" /\ v.a.t = "int" /\ v.b.t = "int" /\ v.c.t \in {"int", "nil"} /\ (v.c.t = "nil" \/ v.c.i # 0)
+Noisy(v) == v.t = "view" /\ v.noisy
 Elems(v) ==
   CASE v.t = "arr"   -> v.es
     [] v.t = "view"  -> v.es
@@ -323,25 +324,30 @@ Elems(v) ==
     [] v.t = "range" -> RangeElems(v.a.i, v.b.i, IF v.c.t = "nil" THEN 1 ELSE v.c.i)
 
 (* list chain: results in order; nil results dropped unless the variant keeps them ("=" strict, "~" thoughtful) *)
-ListLoop(els, i, acc, add, cal, pos, kw, st) ==
-  IF i > Len(els) THEN R("val", acc, st)
-  ELSE LET c == One(IF add = "=" THEN "" ELSE add, cal, els[i], pos, kw, st) IN
+(* nz: the receiver's iterator reports every element it hands out (a "noisy" view): element i is produced right before call i, *)
+(* never ahead of it - production and calls interleave                                                                         *)
+Pull(nz, el, st) == IF nz THEN Emit(st, "out:" \o Show(el)) ELSE st
+ListLoop(nz, els, i, acc, add, cal, pos, kw, st0) ==
+  IF i > Len(els) THEN R("val", acc, st0)
+  ELSE LET st == Pull(nz, els[i], st0)
+           c == One(IF add = "=" THEN "" ELSE add, cal, els[i], pos, kw, st) IN
        IF c.k # "val" THEN c
-       ELSE IF c.v.t = "nil" /\ add \notin {"=", "~"} THEN ListLoop(els, i + 1, acc, add, cal, pos, kw, c.st)
-       ELSE ListLoop(els, i + 1, Append(acc, c.v), add, cal, pos, kw, c.st)
+       ELSE IF c.v.t = "nil" /\ add \notin {"=", "~"} THEN ListLoop(nz, els, i + 1, acc, add, cal, pos, kw, c.st)
+       ELSE ListLoop(nz, els, i + 1, Append(acc, c.v), add, cal, pos, kw, c.st)
 (* reduce chain: fold left from the chain argument; property form calls acc.prop(elem, args),            *)
 (* literal form calls the function with the pair [acc, elem] (spread over two parameters)                *)
-RedLoop(els, i, acc, add, cal, pos, kw, st) ==
-  IF i > Len(els) THEN R("val", acc, st)
-  ELSE IF cal.form = "prop" THEN
+RedLoop(nz, els, i, acc, add, cal, pos, kw, st0) ==
+  IF i > Len(els) THEN R("val", acc, st0)
+  ELSE LET st == Pull(nz, els[i], st0) IN
+       IF cal.form = "prop" THEN
          LET c == One(add, cal, acc, <<els[i]>> \o pos, kw, st) IN
-         IF c.k # "val" THEN c ELSE RedLoop(els, i + 1, c.v, add, cal, pos, kw, c.st)
+         IF c.k # "val" THEN c ELSE RedLoop(nz, els, i + 1, c.v, add, cal, pos, kw, c.st)
        ELSE
          LET c == ApplyLit(cal.fn, ArrV(<<acc, els[i]>>), st) IN      \* the pair is never nil: lonely has no effect here
          IF Bad(c) THEN c
-         ELSE IF add = "~" /\ (c.k = "err" \/ (c.k = "val" /\ c.v.t = "nil")) THEN RedLoop(els, i + 1, acc, add, cal, pos, kw, c.st)
+         ELSE IF add = "~" /\ (c.k = "err" \/ (c.k = "val" /\ c.v.t = "nil")) THEN RedLoop(nz, els, i + 1, acc, add, cal, pos, kw, c.st)
          ELSE IF c.k # "val" THEN c
-         ELSE RedLoop(els, i + 1, c.v, add, cal, pos, kw, c.st)
+         ELSE RedLoop(nz, els, i + 1, c.v, add, cal, pos, kw, c.st)
 
 Digest(carg, results, st) ==
   IF carg.t = "nil" THEN R("val", ArrV(results), st)
@@ -355,9 +361,9 @@ Chain(main, add, cal, recv, carg, pos, kw, st) ==
   IF main = "." THEN One(add, cal, recv, pos, kw, st)
   ELSE IF ~HasElems(recv) THEN Unsupported(st)
   ELSE IF main = "@" THEN
-         LET r == ListLoop(Elems(recv), 1, <<>>, add, cal, pos, kw, st) IN
+         LET r == ListLoop(Noisy(recv), Elems(recv), 1, <<>>, add, cal, pos, kw, st) IN
          IF r.k # "val" THEN r ELSE Digest(carg, r.v, r.st)
-  ELSE IF main = "$" THEN RedLoop(Elems(recv), 1, carg, add, cal, pos, kw, st)
+  ELSE IF main = "$" THEN RedLoop(Noisy(recv), Elems(recv), 1, carg, add, cal, pos, kw, st)
   ELSE Unsupported(st)
 
 Ev(e, f, st) ==
@@ -400,7 +406,7 @@ Ev(e, f, st) ==
                        IF r.k # "val" THEN r ELSE R("val", ObjV(SortPairs(r.st.names, r.v, 1)), r.st)
     [] e.t = "nilnew" -> R("val", NilV, st)          \* Nil.new: another nil object, nil in every respect
     [] e.t = "view" -> LET r == EvList(<<e.base, e.els>>, 1, f, st) IN
-                       IF r.k # "val" THEN r ELSE IF r.v[2].t # "arr" THEN Unsupported(r.st) ELSE R("val", [t |-> "view", es |-> r.v[2].es], r.st)
+                       IF r.k # "val" THEN r ELSE IF r.v[2].t # "arr" THEN Unsupported(r.st) ELSE R("val", [t |-> "view", es |-> r.v[2].es, noisy |-> e.noisy], r.st)
     [] e.t = "range" -> LET r == EvList(<<e.a, e.b, e.c>>, 1, f, st) IN
                         IF r.k # "val" THEN r ELSE R("val", RangeV(r.v[1], r.v[2], r.v[3]), r.st)
     [] e.t = "estr" -> EvParts(e.parts, 1, f, st, "")
